@@ -388,6 +388,20 @@ theorem ccOrdered_points_zero (eps : ℝ) (a b : Circle ℝ) (heps : 0 < eps) (h
   rw [if_neg c2, if_pos (by linarith), if_neg (by simp)]
   trivial
 
+/-- concentric circles: `Same` or `None`, nothing else (fix 542ea35) -/
+theorem ccOrdered_zero_kind (eps : ℝ) (a b : Circle ℝ) (heps : 0 < eps) (hle : b.r ≤ a.r)
+    (hd : edist a.c b.c = 0) :
+    intersectCCOrdered (realGeo eps) a b = CC.same ∨ intersectCCOrdered (realGeo eps) a b = CC.none := by
+  rw [intersectCCOrdered_real]
+  simp only [hd]
+  by_cases c1 : (0 : ℝ) < eps ∧ a.r < b.r + eps
+  · rw [if_pos c1]; exact Or.inl rfl
+  rw [if_neg c1]
+  by_cases c2 : (0 : ℝ) < a.r - b.r - eps
+  · rw [if_pos c2]; exact Or.inr rfl
+  rw [if_neg c2, if_pos (by linarith), if_neg (by simp)]
+  exact Or.inl rfl
+
 theorem ccOrdered_points (eps : ℝ) (a b : Circle ℝ) (heps : 0 < eps) (hb : 0 ≤ b.r) (hle : b.r ≤ a.r) :
     CCPointsOK eps a b (intersectCCOrdered (realGeo eps) a b) := by
   rcases (edist_nonneg a.c b.c).eq_or_lt with h | h
